@@ -2,8 +2,11 @@
     (registry/consul/passing.go, service.go, routecmd.go; main.go:watchBackend).
     Statements, [exact] and the assumption printouts only. *)
 From Coq Require Import String List NArith Bool.
-From Fabio Require Import Lib.Outcome Lib.Bytes Model.Consul Model.Watch Model.ConsulSpec
-     Proofs.Consul Proofs.Watch.
+From Coq Require Import ZArith.
+From Fabio Require Import Lib.Outcome Lib.Bytes Model.WtF64 Model.TableCmd Model.RouteText Model.RouteCmd
+     Proofs.TableCmd Proofs.RouteCmd
+     Model.Consul Model.Watch Model.ConsulSpec Proofs.Consul Proofs.Watch
+     Model.RegistryTable Proofs.RegistryTable.
 Import ListNotations.
 Local Open Scope N_scope.
 
@@ -212,3 +215,141 @@ Theorem C01_watch_nonvacuous :
   /\ installs str build (w_init str []) h = [bs "a" ++ [10]; bs "a" ++ 10 :: bs "m"; bs "b" ++ 10 :: bs "m2"].
 Proof. exact watch_nonvacuous. Qed.
 Print Assumptions C01_watch_nonvacuous.
+
+(* ======================= all layers composed =======================
+   registry (this property) -> route commands (C14: Model/RouteCmd.v [build]) -> table (C05:
+   Model/RouteText.v [new_table]).  A catalog entry is C14's [reg] plus its node; the commands
+   Model/Consul.v's config generation carries for it are C14's [build] of the entry.
+   [isp], [pw], [canon], [gl] stand for strconv.IsPrint, strconv.ParseFloat, url.Parse and
+   glob.Compile as in C14; the theorems hold whatever these libraries answer. *)
+
+(* (1) the lines of the pushed config are, in order, C14's rendered intents of the entries
+   serviceConfig selects; the model's own count check never fires *)
+Theorem C01_config_lines_are_built_commands : forall isp env prefix rcat passing,
+  config_lines prefix (catalog_of isp env prefix rcat) passing =
+  Ok (map (render_intent isp)
+          (flat_map (fun r => intents env prefix (r_reg r)) (selected rcat (group passing)))).
+Proof. exact config_lines_struct. Qed.
+Print Assumptions C01_config_lines_are_built_commands.
+
+(* (2) the headline, unbounded registry states.  Hypotheses: Consul reports the instance's tags
+   on its checks ([consistent]); instance keys are injective (outside F-C01-1); the healthy
+   entries are C14-[expressible].  Then the pushed config is accepted by NewTable and the table
+   has a target (service, lower-cased host, path, destination, weight, tags) for an instance
+   and prefix IF AND ONLY IF the instance is healthy and advertises the prefix. *)
+Theorem C01_svc_table_iff : forall isp pw canon gl env prefix status strict checks rcat,
+  consistent checks rcat -> keys_injective checks rcat ->
+  (forall r, In r rcat -> inst_healthy status strict checks r ->
+             expressible isp pw canon gl env prefix (r_reg r) = true) ->
+  exists text t,
+    registry_config isp env prefix status strict checks rcat = Ok text
+    /\ new_table pw canon gl text = Ok t
+    /\ (forall r i, In r rcat -> inst_healthy status strict checks r -> advertises_intent env prefix r i ->
+                    has_target pw canon prefix t r i)
+    /\ (forall x, In x (flat t) ->
+           exists r i d url, In r rcat /\ inst_healthy status strict checks r /\ advertises_intent env prefix r i
+                             /\ intent_def pw i = Ok d /\ canon (i_dst i) = Some url /\ x = trip d url).
+Proof. exact svc_table_iff. Qed.
+Print Assumptions C01_svc_table_iff.
+
+(* ... with the operator's route commands applied on top, for manual texts made of acceptable
+   'route add' commands: nothing but the healthy instances' and the operator's targets *)
+Theorem C01_svc_table_with_manual_adds : forall isp pw canon gl env prefix status strict checks rcat,
+  consistent checks rcat -> keys_injective checks rcat ->
+  (forall r, In r rcat -> inst_healthy status strict checks r ->
+             expressible isp pw canon gl env prefix (r_reg r) = true) ->
+  forall m dm, parse pw m = Ok dm -> Forall (addable canon gl) dm ->
+  exists text t,
+    registry_config isp env prefix status strict checks rcat = Ok text
+    /\ new_table pw canon gl (next_text text m) = Ok t
+    /\ (forall r i, In r rcat -> inst_healthy status strict checks r -> advertises_intent env prefix r i ->
+                    has_target pw canon prefix t r i)
+    /\ (forall d, In d dm -> exists url tg, canon (d_dst d) = Some url
+           /\ In (lower (fst (hostpath (d_src d))), snd (hostpath (d_src d)), tg) (flat t)
+           /\ same_target (d_svc d) url (w_clamp (d_w d)) (d_tags d) tg = true)
+    /\ (forall x, In x (flat t) ->
+           (exists r i d url, In r rcat /\ inst_healthy status strict checks r /\ advertises_intent env prefix r i
+                              /\ intent_def pw i = Ok d /\ canon (i_dst i) = Some url /\ x = trip d url)
+           \/ (exists d url, In d dm /\ canon (d_dst d) = Some url /\ x = trip d url)).
+Proof. exact svc_table_with_manual. Qed.
+Print Assumptions C01_svc_table_with_manual_adds.
+
+(* (3) the watch loop with route.NewTable as its builder.  Quiescence, concrete: after ANY
+   history of deliveries whose last service text is the config of registry state (checks, rcat)
+   and whose last manual text is empty, the ACTIVE table has a target for (instance, prefix)
+   iff the instance is healthy in that state and advertises the prefix. *)
+Theorem C01_active_table_iff : forall isp pw canon gl env prefix status strict checks rcat,
+  consistent checks rcat -> keys_injective checks rcat ->
+  (forall r, In r rcat -> inst_healthy status strict checks r ->
+             expressible isp pw canon gl env prefix (r_reg r) = true) ->
+  forall (w : wstate table) h e,
+  inv table (table_builder pw canon gl) w ->
+  registry_config isp env prefix status strict checks rcat = Ok (last_svc (h ++ [e]) (w_svc w)) ->
+  last_man (h ++ [e]) (w_man w) = [] ->
+  let t := w_active (Watch.run table (table_builder pw canon gl) w (h ++ [e])) in
+  (forall r i, In r rcat -> inst_healthy status strict checks r -> advertises_intent env prefix r i ->
+               has_target pw canon prefix t r i)
+  /\ (forall x, In x (flat t) ->
+         exists r i d url, In r rcat /\ inst_healthy status strict checks r /\ advertises_intent env prefix r i
+                           /\ intent_def pw i = Ok d /\ canon (i_dst i) = Some url /\ x = trip d url).
+Proof. exact active_table_iff. Qed.
+Print Assumptions C01_active_table_iff.
+
+(* ... and with a last manual text of acceptable 'route add' commands *)
+Theorem C01_active_table_with_manual_adds : forall isp pw canon gl env prefix status strict checks rcat,
+  consistent checks rcat -> keys_injective checks rcat ->
+  (forall r, In r rcat -> inst_healthy status strict checks r ->
+             expressible isp pw canon gl env prefix (r_reg r) = true) ->
+  forall (w : wstate table) h e m dm,
+  inv table (table_builder pw canon gl) w ->
+  registry_config isp env prefix status strict checks rcat = Ok (last_svc (h ++ [e]) (w_svc w)) ->
+  last_man (h ++ [e]) (w_man w) = m ->
+  parse pw m = Ok dm -> Forall (addable canon gl) dm ->
+  let t := w_active (Watch.run table (table_builder pw canon gl) w (h ++ [e])) in
+  (forall r i, In r rcat -> inst_healthy status strict checks r -> advertises_intent env prefix r i ->
+               has_target pw canon prefix t r i)
+  /\ (forall d, In d dm -> exists url tg, canon (d_dst d) = Some url
+         /\ In (lower (fst (hostpath (d_src d))), snd (hostpath (d_src d)), tg) (flat t)
+         /\ same_target (d_svc d) url (w_clamp (d_w d)) (d_tags d) tg = true)
+  /\ (forall x, In x (flat t) ->
+         (exists r i d url, In r rcat /\ inst_healthy status strict checks r /\ advertises_intent env prefix r i
+                            /\ intent_def pw i = Ok d /\ canon (i_dst i) = Some url /\ x = trip d url)
+         \/ (exists d url, In d dm /\ canon (d_dst d) = Some url /\ x = trip d url)).
+Proof. exact active_table_with_manual. Qed.
+Print Assumptions C01_active_table_with_manual_adds.
+
+(* An instance that has become unhealthy is absent from every TABLE installed after that state
+   was observed (until a newer service config arrives): each such table is NewTable of that
+   state's config plus a manual text, and for manual texts of acceptable 'route add' commands
+   every one of its targets belongs to an instance healthy in that state or to a manual command. *)
+Theorem C01_unhealthy_absent_table : forall isp pw canon gl env prefix status strict checks rcat,
+  consistent checks rcat -> keys_injective checks rcat ->
+  (forall r, In r rcat -> inst_healthy status strict checks r ->
+             expressible isp pw canon gl env prefix (r_reg r) = true) ->
+  forall (w : wstate table) text h1 h2 tt,
+  registry_config isp env prefix status strict checks rcat = Ok text ->
+  forallb is_man h2 = true ->
+  In tt (installs table (table_builder pw canon gl) w (h1 ++ Svc text :: h2)) ->
+  In tt (installs table (table_builder pw canon gl) w h1) \/
+  exists m T, tt = next_text text m /\ new_table pw canon gl tt = Ok T /\
+    forall dm, parse pw m = Ok dm -> Forall (addable canon gl) dm ->
+      forall x, In x (flat T) ->
+        (exists r i d url, In r rcat /\ inst_healthy status strict checks r /\ advertises_intent env prefix r i
+                           /\ intent_def pw i = Ok d /\ canon (i_dst i) = Some url /\ x = trip d url)
+        \/ (exists d url, In d dm /\ canon (d_dst d) = Some url /\ x = trip d url).
+Proof. exact unhealthy_absent_table. Qed.
+Print Assumptions C01_unhealthy_absent_table.
+
+(* the hypotheses are met by a concrete state (two instances of one service, one critical, a
+   blank-padded routing tag, an upper-case host): only the healthy one is in the table *)
+Theorem C01_registry_table_nonvacuous :
+  consistent ex_checks ex_rcat /\ keys_injective ex_checks ex_rcat
+  /\ (forall r, In r ex_rcat -> expressible all_print pweight_dec idcanon anyglob env_dc pfx (r_reg r) = true)
+  /\ inst_healthy [bs "passing"] false ex_checks (mkREntry (bs "n1") (ex_reg "s1" "10.0.0.1"))
+  /\ ~ inst_healthy [bs "passing"] false ex_checks (mkREntry (bs "n2") (ex_reg "s2" "10.0.0.2"))
+  /\ exists t, (do text <- registry_config all_print env_dc pfx [bs "passing"] false ex_checks ex_rcat;
+                new_table pweight_dec idcanon anyglob text)%outcome = Ok t
+       /\ map (fun x => (fst (fst x), snd (fst x), t_url (snd x))) (flat t)
+          = [(bs "foo.com", bs "/good", bs "http://10.0.0.1:80/"); ([], bs "/two", bs "http://10.0.0.1:80/")].
+Proof. exact registry_table_nonvacuous. Qed.
+Print Assumptions C01_registry_table_nonvacuous.
